@@ -317,7 +317,11 @@ func reifyStruct(opts *options, orig reflect.Value, cfg *Config) Error {
 					if err != nil {
 						return err
 					}
-					vField.Set(v)
+					// (as for named fields: the field may hold the list behind
+					// a pointer or an interface)
+					if v.IsValid() {
+						fInfo.value.Set(pointerize(fInfo.value.Type(), v.Type(), v))
+					}
 
 				default:
 					return raiseInlineNeedsObject(cfg, fInfo.name, fInfo.value.Type())
